@@ -1046,6 +1046,21 @@ func (cg *ConsumerGroup) assignTopicPartitions(conn coordinator, group joinGroup
 	// assignments for the topic.  this matches the behavior of the official
 	// clients: java, python, and librdkafka.
 	// a topic watcher can trigger a rebalance when the topic comes into being.
+	if errors.Is(err, UnknownTopicOrPartition) && len(topics) > 1 {
+		// the error of one topic hides the partitions of all the others:
+		// ask for the topics one at a time and keep those that exist.
+		partitions, err = nil, nil
+		for _, topic := range topics {
+			topicPartitions, topicErr := conn.readPartitions(topic)
+			if topicErr != nil {
+				if errors.Is(topicErr, UnknownTopicOrPartition) {
+					continue
+				}
+				return nil, topicErr
+			}
+			partitions = append(partitions, topicPartitions...)
+		}
+	}
 	if err != nil && !errors.Is(err, UnknownTopicOrPartition) {
 		return nil, err
 	}
